@@ -427,6 +427,139 @@ def r2_pairing(program, rep):
     rep.floor("C18-R2", 5)
 
 
+def _send_scp_record(program, ss, rep):
+    """send_scp puts its own x, y, p, cmd, arguments and data into the
+    command record it hands to the burst (arguments bound to the record's
+    constructor; value terms)."""
+    new = program.get(SCP + ":scpcall.__new__")
+    T = Terms(ss)
+    cs = calls_in(ss, "scpcall")
+    if len(cs) != 1:
+        raise AnalysisError("send_scp: expected one scpcall(...) record, "
+                            "found %d" % len(cs))
+    b = bind(cs[0], new, True)
+    n = T.cfg.node_containing(cs[0])
+    ok = True
+    detail = []
+    for nm in ("x", "y", "p", "cmd", "arg1", "arg2", "arg3", "data"):
+        v = b.get(nm)
+        if not isinstance(v, ast.AST):
+            ok = False
+            detail.append("%s is not given" % nm)
+            continue
+        t = plain(T.term(v, n))
+        if t != ("param", nm):
+            ok = False
+            detail.append("%s = %s" % (nm, show(t)[:40]))
+    rep.check(ok, "C18-R3", qual(ss), "send_scp wraps its own x, y, p into "
+              "the command record", construct="send_scp -> scpcall", node=ss,
+              fail="the command record built by send_scp does not carry its "
+                   "own arguments: %s" % "; ".join(detail))
+
+
+def _command_word(f, m, key, parts, rep):
+    """A command word that carries the caller's ``key`` is the OR of the
+    expected parts, in any order and through any temporaries (value terms;
+    constant parts folded)."""
+    from ..terms import eval_closed
+    from ..util import parse_expr
+    T = Terms(f)
+
+    def flat(t):
+        if t[0] == "binop" and t[1] == "BitOr":
+            return flat(t[2]) + flat(t[3])
+        return [t]
+
+    def norm(t):
+        t = plain(t)
+        try:
+            return ("const", eval_closed(t))
+        except AnalysisError:
+            return t
+    KEY = ("param", key)
+    chains = []
+    for n in ast.walk(f):
+        if not (isinstance(n, ast.BinOp) and isinstance(n.op, ast.BitOr)):
+            continue
+        par = getattr(n, "_parent", None)
+        if isinstance(par, ast.BinOp) and isinstance(par.op, ast.BitOr):
+            continue
+        node = T.cfg.node_containing(n)
+        ops = [norm(o) for o in flat(plain(T.term(n, node)))]
+        if any(KEY in list(subterms(o)) for o in ops):
+            chains.append((n, node, ops))
+    if not chains:
+        raise AnalysisError("%s: the command word carrying %s was not found"
+                            % (m, key))
+    ok = False
+    for n, node, ops in chains:
+        want = [norm(T.term(parse_expr(p_), node)) for p_ in parts]
+        if all(w in ops for w in want):
+            ok = True
+    frag = " | ".join(parts)
+    rep.check(ok, "C18-R3", qual(f), "%s encodes the caller's value in the "
+              "command word (%s)" % (m, frag),
+              construct="%s command word" % m, node=f)
+
+
+def _packet_destination(burst, rep):
+    """The packet built for a command carries that command's own x, y, p,
+    cmd and arguments (value terms; the construction may sit in a nested
+    helper of the burst)."""
+    T = Terms(burst)
+    views = [(T, burst)]
+    for sub in ast.walk(burst):
+        if isinstance(sub, ast.FunctionDef) and sub is not burst:
+            for v in T.inners(sub):
+                views.append((v, sub))
+    found = []
+    for v, f in views:
+        for c in ast.walk(f):
+            if isinstance(c, ast.Call) and call_name(c)[0] == "SCPPacket" \
+                    and _enclosing_def(c) is f:
+                n = v.cfg.node_containing(c)
+                found.append((c, {k.arg: plain(v.term(k.value, n))
+                                  for k in c.keywords if k.arg}))
+    if not found:
+        raise AnalysisError("send_scp_burst: the construction of the packet "
+                            "was not found")
+    want = {"dest_x": "x", "dest_y": "y", "dest_cpu": "p", "cmd_rc": "cmd",
+            "arg1": "arg1", "arg2": "arg2", "arg3": "arg3", "data": "data"}
+    okp = True
+    detail = ""
+    for c, kw in found:
+        rec = None
+        for k, a in want.items():
+            t = kw.get(k)
+            if t is None:
+                raise AnalysisError("send_scp_burst: SCPPacket(...) is not "
+                                    "given %s by keyword" % k)
+            if not (t[0] == "attr" and t[2] == a):
+                if t[0] == "attr" and t[2] in want.values():
+                    okp = False
+                    detail = "%s is the command's %s" % (k, t[2])
+                    continue
+                raise AnalysisError("send_scp_burst: %s of the packet is not "
+                                    "a field of the command record" % k)
+            if rec is None:
+                rec = t[1]
+            elif t[1] != rec:
+                okp = False
+                detail = "%s comes from another record" % k
+    rep.check(okp, "C18-R3", qual(burst), "the packet's destination is the "
+              "command's x, y, p (then bytes 7, 6, 4 of the header, C15)",
+              construct="packet destination", node=burst,
+              fail="the packet built for a command does not carry that "
+                   "command's own fields: %s" % detail)
+
+
+def _enclosing_def(node):
+    n = getattr(node, "_parent", None)
+    while n is not None and not isinstance(n, (ast.FunctionDef, ast.Lambda)):
+        n = getattr(n, "_parent", None)
+    return n
+
+
 def r3_roles(program, rep):
     n = 0
     for cls in (MC + ":MachineController", BMP + ":BMPController"):
@@ -450,6 +583,13 @@ def r3_roles(program, rep):
                     cq = "%s.%s" % (cname, nm)
                     ex = set((cq, f) for (a, b, f) in EXEMPT
                              if a == caller and b == cq)
+                    # the system-variable struct belongs to the chip, not
+                    # to a core: it is read through core 0 whoever asks
+                    if nm in ("read_struct_field", "write_struct_field") \
+                            and call.args and isinstance(
+                                call.args[0], ast.Constant) and \
+                            call.args[0].value in ("sv", b"sv"):
+                        ex.add((cq, "p"))
                     n += check_call(rep, "C18-R3", qual(fn), rf, call,
                                     callee, allowed_consts=ALLOWED_CONSTS,
                                     exempt_omit=ex)
@@ -462,24 +602,9 @@ def r3_roles(program, rep):
                                     if cname == "BMPController" else ())
     # the hop to the wire
     ss = program.get(SCP + ":SCPConnection.send_scp")
-    t = unparse(ss)
-    ok = "scpcall(x, y, p, cmd, arg1, arg2, arg3, data, callback, timeout)" \
-        in t
-    rep.check(ok, "C18-R3", qual(ss), "send_scp wraps its own x, y, p into "
-              "the command record", construct="send_scp -> scpcall", node=ss)
+    rep.guard("C18-R3", _send_scp_record, program, ss, rep)
     burst = program.get(SCP + ":SCPConnection.send_scp_burst")
-    pk = calls_in(burst, "SCPPacket")
-    okp = False
-    if len(pk) == 1:
-        kw = {k.arg: unparse(k.value) for k in pk[0].keywords}
-        okp = kw.get("dest_x") == "args.x" and kw.get("dest_y") == "args.y" \
-            and kw.get("dest_cpu") == "args.p" and \
-            kw.get("cmd_rc") == "args.cmd" and \
-            [kw.get("arg%d" % i) for i in (1, 2, 3)] == [
-                "args.arg1", "args.arg2", "args.arg3"]
-    rep.check(okp, "C18-R3", qual(burst), "the packet's destination is the "
-              "command's x, y, p (then bytes 7, 6, 4 of the header, C15)",
-              construct="packet destination", node=burst)
+    rep.guard("C18-R3", _packet_destination, burst, rep)
     sc = program.get(SCP + ":scpcall")
     import_ok = "x y p cmd arg1 arg2 arg3 data expected_args callback " \
         "timeout".split()
@@ -499,16 +624,15 @@ def r3_roles(program, rep):
               "are x, y, p in that order", construct="scpcall fields",
               node=sc)
     # app_id lands in the documented field of the signal / count words
-    for m, frag in (("send_signal", "signal << 16 | 65280 | app_id"),
-                    ("count_cores_in_state", "| 255 << 8 | app_id"),
-                    ("_send_ffe", "NNCommands.flood_fill_end << 24 | pid"),
-                    ("clear_routing_table_entries",
-                     "app_id << 8 | consts.AllocOperations.free_rtr_by_app"),
-                    ):
+    for m, key, parts in (
+            ("send_signal", "app_id",
+             ["signal << 16", "0xff00", "app_id"]),
+            ("count_cores_in_state", "app_id", ["0xff << 8", "app_id"]),
+            ("_send_ffe", "pid", ["NNCommands.flood_fill_end << 24", "pid"]),
+            ("clear_routing_table_entries", "app_id",
+             ["app_id << 8", "consts.AllocOperations.free_rtr_by_app"])):
         f = program.get(MC + ":MachineController." + m)
-        rep.check(frag in unparse(f), "C18-R3", qual(f), "%s encodes the "
-                  "caller's value in the command word (%s)" % (m, frag),
-                  construct="%s command word" % m, node=f)
+        rep.guard("C18-R3", _command_word, f, m, key, parts, rep)
     rep.floor("C18-R3", 150)
     return n
 
@@ -623,6 +747,12 @@ def r5_connection(program, rep):
                                 V("i")), V("j")), st_)
             if m is not None:
                 cells.add((m["i"], m["j"]))
+    if len(cells) != 1 or len(p6) != 6:
+        # (the same reading as C19-R2; another form of the look-up is not
+        # analysed)
+        rep.undecided("C18-R5", "spinn5_local_eth_coord no longer indexes "
+                      "SPINN5_ETH_OFFSET once in the [row][column] form")
+        okg = None
     if len(cells) == 1 and len(p6) == 6:
         it, jt = list(cells)[0]
         x, y, w, h, rx, ry = [Poly.atom(p) for p in p6]
@@ -630,7 +760,8 @@ def r5_connection(program, rep):
         j = gfl.sym(_wp(reify(plain(jt))), gfl.cfg.entry)
         okg = i == gfl.mod(y - ry, Poly.const(12)) and \
             j == gfl.mod(x - rx, Poly.const(12))
-    rep.check(okg, "C18-R5", qual(g), "the offset table is indexed "
+    if okg is not None:
+      rep.check(okg, "C18-R5", qual(g), "the offset table is indexed "
               "[(y - root_y) % 12][(x - root_x) % 12]",
               construct="eth offset index", node=g,
               fail="spinn5_local_eth_coord indexes the offset table "
